@@ -600,6 +600,12 @@ def run(ctx):
     r6_4(ctx)
     r6_6(ctx)
     r6_7(ctx)
+    # R6.5 = C08 R8.1 (a non-BadCommand exception from parse() skips every reply path); admission relation and
+    # release-before-acquire are necessary for every command to be answered without the watchdog
+    from . import c08, c10
+    c08.r8_1(ctx)
+    c10.r10_2(ctx)
+    c10.r10_5(ctx)
     ctx.trust("frozen: transport/cancel arms of command() that may stay silent = ConnectionResetError, CancelledError, KeyboardInterrupt")
     ctx.trust("frozen: logging calls (logger.*/self.log.*) are non-raising")
 
